@@ -68,7 +68,10 @@ def _layout(s, code, N, pieces):
 
 def _q_job(item):
     shape, N, fm, timeout_ms = item
-    r = q_do_while(shape, N, timeout_ms, fm)
+    try:
+        r = q_do_while(shape, N, timeout_ms, fm)
+    except Exception as e:  # noqa - the function under test no longer has a shape the shim can execute symbolically
+        r = dict(shape=shape, verdict="shim-not-applicable", detail=f"{type(e).__name__}: {e}"[:200])
     r["N"] = N
     return r
 
@@ -171,6 +174,34 @@ def run(tier):
             rep.add("lookalike:" + repr(t), "violation", "differs", f"{t!r} -> {real!r}; token-level reference {' '.join(want)!r}", example=t)
         else:
             rep.add("lookalike:" + repr(t), "ok")
+    # every spacing variant of one, two sequential, two nested and three sequential wrappers (concrete, bounded-exhaustive)
+    import itertools
+    ws = ["", " ", "  "]
+
+    def wrap(body, a, b, c):
+        return "do" + a + "{" + body + "}" + b + "while" + c + "(0)"
+    nconc = bad = 0
+    variants = list(itertools.product(ws, repeat=3))
+    cases = []
+    for v1 in variants:
+        cases.append("{ " + wrap(" x; ", *v1) + "; }\n")
+        for v2 in variants:
+            cases.append("{ " + wrap(" x; ", *v1) + "; " + wrap(" y; ", *v2) + "; }\n")
+            cases.append("{ " + wrap(" a; " + wrap(" x; ", *v2) + "; ", *v1) + "; }\n")
+    for v1, v2, v3 in itertools.product(variants[::4], variants[::5], variants[::3]):
+        cases.append("{ " + wrap("p;", *v1) + " " + wrap("q;", *v2) + " " + wrap("r;", *v3) + " }\n")
+    for t in cases:
+        nconc += 1
+        try:
+            real = PP.replace_do_while_0(t)
+        except Exception as e:  # noqa
+            real = f"raised {type(e).__name__}"
+        want = BD.strip_do_while0(BD.tokens(t))
+        if BD.tokens(real) != want:
+            bad += 1
+            if bad <= 8:
+                rep.add("wrappers:" + repr(t), "violation", "differs", f"{t!r} -> {real!r}", example=t)
+    rep.coverage["concrete_wrapper_variants"] = dict(strings=nconc, disagreements=bad)
     rep.solver_time = time.time() - t0
     # (2) CrossHair on the real patch_macros
     res = chrun.run_harness(HARNESS, 900 if thorough else 400, thorough=thorough)
